@@ -38,6 +38,7 @@ def _gen_election(rng, family=None, maxc=7, maxb=9):
     if family == 'coalition': return gen_coalition(rng) if rng.random() < 0.6 else gen_multisurplus(rng)
     if family == 'multisurplus': return gen_multisurplus(rng)
     if family == 'cotie': return gen_cotie(rng)
+    if family == 'cochain': return gen_cochain(rng)
     if family == 'exactquota4': return gen_exact_quota(rng, 4)
     if family == 'exactquota5': return gen_exact_quota(rng, 5)
     if family == 'exactquota9': return gen_exact_quota(rng, 9)
@@ -137,6 +138,30 @@ def gen_scot_cross(rng):
     if a >= total // 2 + 1:
         lines.append((2 * a - total + 2, [rng.choice([2, 3])]))  # breaks the construction sometimes; fine
     return _finish(rng, n, seats, lines)
+
+def gen_cochain(rng):
+    """a solid coalition with exactly as many members as seats, just above that many quotas, whose votes sit almost entirely
+    with one leader: the other members are elected only by surplus passed down a chain (to convergence, for Meek);
+    an outsider just below the quota waits for any of them to be excluded instead"""
+    m = rng.choice([2, 3, 3, 4]); s = m
+    u = rng.randint(3, 15); T = (s + 1) * u + rng.randint(0, s)
+    out_votes = max(1, T // (s + 1) - rng.randint(0, 2))
+    co = T - out_votes
+    members = list(range(1, m + 1))
+    small = [rng.choice([0, 0, 1, 2, 3]) for _ in members[1:]]
+    if sum(small) >= co: small = [0 for _ in small]
+    lines = []
+    order = members[1:]; rng.shuffle(order)
+    lines.append((co - sum(small), [members[0]] + order))
+    for c, v in zip(members[1:], small):
+        if v:
+            rest = [x for x in members if x != c]; rng.shuffle(rest)
+            lines.append((v, [c] + rest))
+    n = m + 1
+    lines.append((out_votes, [n]))
+    if rng.random() < 0.3:
+        n += 1; lines.append((1, [n, rng.choice(members)]))
+    return _finish(rng, n, s, lines)
 
 def gen_cotie(rng):
     """a solid coalition whose members are exactly tied (for last place, usually) when the first exclusion is due:
